@@ -34,6 +34,23 @@ class Ev:
         return "Ev(%s,%d,%s)" % (self.mcv, self.clock, self.payload.hex())
 
 
+class HoleEv(Ev):
+    """A jumbo event whose data is `hole` zero bytes, never materialised in memory:
+    write_trace leaves a hole in the (sparse) file."""
+    __slots__ = ("hole",)
+
+    def __init__(self, mcv, clock, hole):
+        Ev.__init__(self, mcv, clock, b"", b"")
+        self.hole = hole
+
+    def encode(self):
+        head = enc(self.mcv, self.clock, b"", b"")
+        return head[:12] + struct.pack("<I", self.hole)
+
+    def __repr__(self):
+        return "Ev(%s,%d,jumbo[%d zero bytes])" % (self.mcv, self.clock, self.hole)
+
+
 def enc(mcv, clock, payload=b"", jumbo=None, flags_hi=0):
     m = mcv.encode("latin-1") if isinstance(mcv, str) else bytes(mcv)
     assert len(m) == 3
@@ -202,7 +219,15 @@ def write_trace(root, streams, order=None, extra_files=None, foreign=None):
         d = os.path.join(root, s.relpath)
         os.makedirs(d, exist_ok=True)
         with open(os.path.join(d, "stream.obs"), "wb") as f:
-            f.write(s.obs_bytes())
+            if s.raw is None and any(isinstance(e, HoleEv) for e in s.events):
+                f.write(HEADER)
+                for e in s.events:
+                    f.write(e.encode())
+                    if isinstance(e, HoleEv):
+                        f.seek(e.hole, 1)
+                f.truncate(f.tell())
+            else:
+                f.write(s.obs_bytes())
         jb = s.json_bytes()
         if jb is not None:
             with open(os.path.join(d, "stream.json"), "wb") as f:
